@@ -192,7 +192,8 @@ pub fn mock_datagram(
     reliable: bool,
     bound: &str,
 ) -> (TpHandle, u32) {
-    let id = (NEXT_TP.fetch_add(1, Ordering::Relaxed) & 0xffff_ffff) as u32;
+    // datagram ids stay below 0x10000 (connection ids start there)
+    let id = (NEXT_TP.fetch_add(1, Ordering::Relaxed) % 0xfffe) as u32 + 1;
     let tp = MockDatagram {
         id,
         name,
